@@ -78,7 +78,7 @@ def gen_kinds(rng):
 
 
 def gen(rng, tier):
-    n = 20000 if tier == "quick" else 400000
+    n = 12000 if tier == "quick" else 400000
     for _ in range(n):
         v4 = rng.choice([0, 1, 8, 16, 23, 24, 24, 25, 31, 32, rng.randint(0, 32)])
         v6 = rng.choice([0, 1, 32, 48, 56, 56, 63, 64, rng.randint(0, 64)])
@@ -117,7 +117,7 @@ CHECK = {
     "props": "Props/C27.v",
     "theorems": ["c27_set_ipv4_prefix_len", "c27_set_ipv6_prefix_len", "c27_default_prefixes", "c27_v4_mask", "c27_v6_mask",
                  "c27_mapped", "c27_name_hash_ci", "c27_key_eq", "c27_same_stream_same_key", "c27_same_key_same_stream",
-                 "c27_exempt", "c27_subject_is_limitable", "c27_pair"],
+                 "c27_exempt", "c27_subject_is_limitable", "c27_pair", "c27_pair_fresh"],
     "allowed_axioms": [],
     "suites": [{
         "name": "rrlpair",
